@@ -18,8 +18,12 @@ META = {
         "width (duplicates allowed), demands 0-6 not all zero, plus the all-zero / empty edge; about 60% of the instances "
         "draw their sizes from directed families (DESIGN 2.9): 'frac' = sizes just above W/3, W/4, W/2 mixed with small "
         "fillers, 'dup' = repeated sizes, 'tiny' = a size-1/2 piece with demand <=2 next to such pieces on W>=10 (the last "
-        "improving column has reduced cost -1/(W//size)); the rest uniform; numbers passed as int or integral float, "
-        "sequences as list or tuple. Custom mode: an explicit column pool ('cs-like' = one-piece patterns + all maximal "
+        "improving column has reduced cost -1/(W//size)), 'common-divisor' = 2-3 sizes all multiples of g in 2..6 on a "
+        "width that is not; the rest uniform; numbers passed as int or integral float, sequences as list or tuple; "
+        "solve_cg additionally with max_iter in {default x7, 0, 1, 2}. Exhaustive small scope (sub-checks "
+        "*_exhaustive_2pieces, same verdict): every instance with two piece sizes 1<=s1<=s2<=W and demands in 1..2 "
+        "(thorough 0..4, not both 0) for W=4..16 (thorough ..20) through solve_cg, and for W=4..12 (thorough ..14) "
+        "through solve_bp. Custom mode: an explicit column pool ('cs-like' = one-piece patterns + all maximal "
         "patterns of a drawn instance with the one-piece patterns as initial columns, i.e. the path of the built-in "
         "mode; all maximal patterns; a random sub-pool of them that still covers every piece; a generic 0-3 valued "
         "column set), initial columns = a covering subset of the pool, pricing function = enumeration of the pool "
@@ -420,13 +424,15 @@ def run_bp_custom(desc, ctx):
 
 
 # ----------------------------------------------------------------------------- exhaustive small scope
-def small_scope(tier, wmax_quick=16):
+def small_scope(tier, wmax_quick=16, wmax_thorough=20):
     """Every two-piece instance: W = 4..16 (thorough ..20), 1 <= s1 <= s2 <= W, demands 1..2 (thorough 0..4, not both 0).
 
-    Same description format as `instances`, judged by the same run functions (3 224 cases quick, 36 720 thorough)."""
+    Same description format as `instances`, judged by the same run functions.  solve_cg: 3 224 cases quick, 36 720
+    thorough; solve_bp (a call costs ~10x more, half of them end in the known class): W <= 12 quick (1 416 cases),
+    W <= 14 thorough (13 200)."""
     thorough = tier == "thorough"
     dem = range(0, 5) if thorough else range(1, 3)
-    for W in range(4, (20 if thorough else wmax_quick) + 1):
+    for W in range(4, (wmax_thorough if thorough else wmax_quick) + 1):
         for s1 in range(1, W + 1):
             for s2 in range(s1, W + 1):
                 for d1 in dem:
@@ -450,7 +456,7 @@ SUBS = [
     Sub("cg_cutting_stock", run_cg, strategy=lambda tier: instances(tier), quick=450, thorough=3000, workers_quick=4, crash="inconclusive"),
     Sub("bp_cutting_stock", run_bp, strategy=lambda tier: instances(tier), quick=200, thorough=800, workers_quick=6, crash="inconclusive"),
     Sub("cg_exhaustive_2pieces", run_cg, enumerate=lambda tier: small_scope(tier), workers_quick=8, crash="inconclusive"),
-    Sub("bp_exhaustive_2pieces", run_bp, enumerate=lambda tier: small_scope(tier, wmax_quick=12), workers_quick=8, crash="inconclusive"),
+    Sub("bp_exhaustive_2pieces", run_bp, enumerate=lambda tier: small_scope(tier, wmax_quick=12, wmax_thorough=14), workers_quick=8, crash="inconclusive"),
     Sub("cg_custom_pricing", run_cg_custom, strategy=lambda tier: pools(tier), quick=300, thorough=2000, workers_quick=2, crash="inconclusive"),
     Sub("bp_custom_pricing", run_bp_custom, strategy=lambda tier: pools(tier), quick=250, thorough=1200, workers_quick=4, crash="inconclusive"),
 ]
